@@ -67,8 +67,24 @@ def canon_tok(t):
     return f'{f:.9g}'
 
 
+WGHT_DEFAULTS = ['0.1', '0', '0', '0', '0', '0.33333']      # WGHT a[0.1] b[0] c[0] d[0] e[0] f[.33333]
+
+
+def pad_wght(toks):
+    """'WGHT a b' means 'WGHT a b 0 0 0 0.33333': omitted trailing parameters take their defaults"""
+    n = len(toks) - 1
+    return list(toks) + WGHT_DEFAULTS[n:] if n < 6 else list(toks)
+
+
 def canon(lines):
-    return [tuple(canon_tok(t) for t in toks) for toks in lines if toks]
+    out = []
+    for toks in lines:
+        if not toks:
+            continue
+        if toks[0].upper() == 'WGHT':
+            toks = pad_wght(toks)
+        out.append(tuple(canon_tok(t) for t in toks))
+    return out
 
 
 def kw(line):
@@ -158,14 +174,14 @@ def make_file(rng, nsfac=None, nfvar=None, rich=True):
     head = []
     if rich:
         head.append(plain(f'TEMP {rng.choice([-100, -173, 20])}'))
-        head.append(plain(rng.choice(['L.S. 10', 'CGLS 8', 'L.S. 4 2', 'L.S. 12']), 'ls'))
-        head.append(plain(rng.choice(['PLAN 20', 'PLAN 25 1.5', 'PLAN -30 1.5 2.5']), 'plan'))
+        head.append(plain(rng.choice(forms_ls()), 'ls'))
+        head.append(plain(rng.choice(forms_plan()), 'plan'))
         if rng.random() < 0.85:
-            head.append(plain(rng.choice(['ACTA', 'ACTA 50', 'ACTA 52.5']), 'acta'))
+            head.append(plain(rng.choice(forms_acta()), 'acta'))
         head.append(plain('REM first remark of the file', 'rem0'))
         for x in rng.sample(['LIST 4', 'BOND $H', 'CONF', 'FMAP 2', 'EQIV $1 -x, y, -z', 'REM another remark', 'OMIT 0 1 2'], rng.randint(0, 4)):
             head.append(plain(x))
-        head.append(plain(f'WGHT 0.{rng.randint(10, 99)} 0.{rng.randint(10, 99)}{rng.randint(1, 9)}', 'wght'))
+        head.append(plain(rng.choice(forms_wght()) if rng.random() < 0.5 else f'WGHT 0.{rng.randint(10, 99)} 0.{rng.randint(10, 99)}{rng.randint(1, 9)}', 'wght'))
         rng.shuffle(head)
     else:
         head = [plain('L.S. 10', 'ls'), plain('PLAN 20', 'plan'), plain('ACTA 50', 'acta'), plain('REM first remark', 'rem0'),
@@ -246,11 +262,106 @@ def make_file(rng, nsfac=None, nfvar=None, rich=True):
     lines.append(plain('HKLF 4', 'hklf'))
     lines.append(plain('END', 'end'))
     if not rich or rng.random() < 0.8:
-        lines.append(plain(f'WGHT 0.0{rng.randint(100, 999)} 0.{rng.randint(1000, 9999)}', 'wght2'))
+        lines.append(plain(rng.choice(forms_wght()) if rich and rng.random() < 0.3 else f'WGHT 0.0{rng.randint(100, 999)} 0.{rng.randint(1000, 9999)}', 'wght2'))
         for q in range(rng.randint(0, 2) if rich else 1):
             toks = [f'Q{q + 1}', '1', f'{0.1 + 0.1 * q:.4f}', f'{0.2 + 0.05 * q:.4f}', f'{0.3 + 0.02 * q:.4f}', '11.00000', '0.04', f'{1.5 - 0.2 * q:.2f}']
             lines.append(L('other', '  '.join(toks), toks, 'qpeak'))
     return dict(lines=lines, els=els, absent=absent[:3])
+
+
+def forms_ls():
+    """L.S./CGLS nls nrf nextra: every prefix form, zero and negative values in each slot"""
+    out = []
+    for k in ('L.S.', 'CGLS'):
+        for n in (10, 0):
+            out.append(f'{k} {n}')
+            for nrf in (0, -1, 2):
+                out.append(f'{k} {n} {nrf}')
+                for nx in (0, 12):
+                    out.append(f'{k} {n} {nrf} {nx}')
+    return out
+
+
+def forms_plan():
+    out = []
+    for n in (20, -30, 0):
+        out.append(f'PLAN {n}')
+        for d1 in (0, -1, 1.5):
+            out.append(f'PLAN {n} {d1}')
+            for d2 in (0, 2.5):
+                out.append(f'PLAN {n} {d1} {d2}')
+    return out
+
+
+def forms_wght():
+    """WGHT a..f: every prefix length; in every slot a zero, a negative and a default-equal value"""
+    ordinary = ['0.0512', '0.2375', '0.0125', '0.0031', '0.0444', '0.25']
+    out = []
+    for n in range(1, 7):
+        out.append('WGHT ' + ' '.join(ordinary[:n]))
+        for slot in range(n):
+            for v in ('0', '-0.07', WGHT_DEFAULTS[slot]):
+                t = list(ordinary[:n])
+                t[slot] = v
+                out.append('WGHT ' + ' '.join(t))
+        out.append('WGHT ' + ' '.join(WGHT_DEFAULTS[:n]))
+        out.append('WGHT ' + ' '.join(['0'] * n))
+    return sorted(set(out))
+
+
+def forms_acta():
+    return ['ACTA', 'ACTA 50', 'ACTA 52.5', 'ACTA NOHKL', 'ACTA 50 NOHKL']
+
+
+SETTERS = {
+    'ls': [dict(op='cycles', n=n, via=v) for n in (0, 4, 10) for v in ('number', 'set_refine_cycles')],
+    'plan': [dict(op='plan_set', text=t) for t in ('PLAN 5', 'PLAN 0', 'PLAN -5 0', 'PLAN 5 0 0', 'PLAN 7 1.5 0', 'PLAN 7 -1 2.5', 'PLAN 20')],
+    'wght': [dict(op='wght', attr=a, val=v) for a in 'abcdef' for v in (0.0, -0.5, float(WGHT_DEFAULTS['abcdef'.index(a)]), 0.0733)] +
+            [dict(op='wght_set', text=t) for t in ('WGHT 0.1', 'WGHT 0 0', 'WGHT 0.03 0.5 0 0 0 0.33333', 'WGHT 0.03 0.5 0 0 0.2 0', 'WGHT -0.02 0 0.1')] +
+            [dict(op='update_weight')],
+    'acta': [dict(op='acta_remove'), dict(op='acta_restore')],
+}
+
+
+def mini_file(instr, role, wght2=None, els=('C', 'O')):
+    """the smallest valid file around one instruction (setter x parameter-form grid)"""
+    lines = [plain('TITL c04 setter grid', 'titl'), plain('CELL 0.71073 10.0 11.0 12.0 90.0 95.0 90.0', 'cell'),
+             plain('ZERR 4 0.001 0.001 0.001 0.0 0.01 0.0', 'zerr'), plain('LATT -1', 'latt'),
+             L('sfac', 'SFAC ' + ' '.join(els), ['SFAC'] + list(els), 'sfac'), plain('UNIT 8 0', 'unit')]
+    base = dict(ls='L.S. 10', plan='PLAN 20', wght='WGHT 0.05 0.25')
+    for r in ('ls', 'plan', 'acta', 'wght'):
+        if r == role:
+            lines.append(plain(instr, r))
+        elif r in base:
+            lines.append(plain(base[r], r))
+    lines.append(L('fvar', 'FVAR 0.5', ['FVAR', '0.50000'], 'fvar'))
+    lines.append(atom_line(gen.AtomSpec('C1', 1, (0.1, 0.2, 0.3), 11.0, (0.03,)), 'atom'))
+    lines += [plain('HKLF 4', 'hklf'), plain('END', 'end')]
+    if wght2:
+        lines.append(plain(wght2, 'wght2'))
+    return dict(lines=lines, els=list(els), absent=['Br', 'Fe', 'N'])
+
+
+def setter_grid(rng, thorough):
+    """every setter of the alphabet on every parameter form of its instruction (depth 1), and pairs of setters on
+    the same instruction (second call on the same object) on a sample of forms"""
+    cases = []
+    sugg = ['WGHT 0.0412 0.3377', 'WGHT 0.0412 0', 'WGHT 0 0.3377 0 0 0 0.33333', 'WGHT 0.0412 0.3377 0 0.001 0 0', 'WGHT 0.02']
+    for role, forms in (('ls', forms_ls()), ('plan', forms_plan()), ('wght', forms_wght()), ('acta', forms_acta())):
+        if role == 'wght' and not thorough:
+            forms = rng.sample(forms, 30)
+        for n, form in enumerate(forms):
+            f = mini_file(form, role, wght2=sugg[n % len(sugg)] if role == 'wght' else None)
+            for o in SETTERS[role]:
+                cases.append(dict(f, hist=[dict(o)]))
+            if role == 'acta':
+                cases.append(dict(f, hist=[dict(op='acta_remove'), dict(op='acta_restore')]))
+                cases.append(dict(f, hist=[dict(op='acta_remove'), dict(op='add_line_unit'), dict(op='acta_restore'), dict(op='acta_remove'), dict(op='acta_restore')]))
+            elif thorough or n % 4 == 0:
+                pairs = list(itertools.product(SETTERS[role], repeat=2))
+                for a, b in (pairs if thorough or len(pairs) <= 49 else rng.sample(pairs, 40)):
+                    cases.append(dict(f, hist=[dict(a), dict(b)]))
+    return cases
 
 
 def file_text(case):
@@ -306,11 +417,16 @@ def rand_op(rng, case):
     if o['op'] == 'rename':
         o['name'] = rng.choice(['Zr', 'N', 'Xe', 'Q']) + str(rng.randint(1, 99))
     if o['op'] == 'plan_set':
-        o['text'] = rng.choice([f'PLAN {rng.randint(2, 99)}', f'PLAN {rng.randint(2, 99)} 1.{rng.randint(1, 9)}', f'PLAN -{rng.randint(2, 99)} 1.5 2.{rng.randint(1, 9)}'])
+        o['text'] = rng.choice([f'PLAN {rng.randint(2, 99)}', f'PLAN {rng.randint(2, 99)} 1.{rng.randint(1, 9)}',
+                                f'PLAN -{rng.randint(2, 99)} 1.5 2.{rng.randint(1, 9)}'] + [x['text'] for x in SETTERS['plan']])
     if o['op'] == 'cycles':
-        o['n'] = rng.randint(1, 60)
+        o['n'] = rng.choice([0, 0, rng.randint(1, 60), rng.randint(1, 60)])
     if o['op'] == 'wght':
-        o['val'] = round(rng.uniform(0.001, 3), 4)
+        if rng.random() < 0.5:
+            o = dict(rng.choice(SETTERS['wght']))
+        else:
+            o['attr'] = rng.choice('abcdef')
+            o['val'] = round(rng.uniform(-0.5, 3), 4)
     return o
 
 
@@ -491,13 +607,15 @@ class Book:
             call = (lambda s, r: setattr(s.cycles, 'number', o['n'])) if o['via'] == 'number' else (lambda s, r: s.cycles.set_refine_cycles(o['n']))
             return (*self.set(R['ls'], [t[0], str(o['n'])] + t[2:]), call)
         if kind == 'wght':
-            t = list(self.toks[R['wght']])
-            t[1 if o['attr'] == 'a' else 2] = repr(o['val'])
+            t = pad_wght(self.toks[R['wght']])
+            t['abcdef'.index(o['attr']) + 1] = repr(o['val'])
             return (*self.set(R['wght'], t), lambda s, r: setattr(s.wght, o['attr'], o['val']))
+        if kind == 'wght_set':
+            return (*self.set(R['wght'], o['text'].split()), lambda s, r: s.wght.set(o['text']))
         if kind == 'update_weight':
             if 'wght2' not in R:
                 return [], [], lambda s, r: s.update_weight()
-            return (*self.set(R['wght'], ['WGHT'] + self.toks[R['wght2']][1:]), lambda s, r: s.update_weight())
+            return (*self.set(R['wght'], pad_wght(self.toks[R['wght2']])), lambda s, r: s.update_weight())
         if kind == 'acta_remove':
             if 'acta' not in R:
                 return None
@@ -715,7 +833,7 @@ def evaluate(ctx, cases, stream=None):
 def run(ctx):
     ctx.rule = ('by-construction files with 1-3 SFAC lines, 1-3 FVAR lines (<= 7 free variables), 0-2 SYMM, ACTA/PLAN/L.S./WGHT, restraints, '
                 '3-7 iso/aniso atoms in PART/RESI/AFIX blocks incl. word-by-word identical atom lines (same atom in the other PART / duplicated residue) and identical REM lines, WGHT + Q-peaks after END; histories over 40 edit instances (17 kinds) + add_line at every list index of the unedited file: '
-                'bounded-exhaustive to depth 2, 3 on a 13-instance alphabet (quick) / 3 on all, 4 on a 10-instance alphabet (thorough) and random walks to depth 50, file written '
+                'bounded-exhaustive to depth 2, 3 on a 13-instance alphabet (quick) / 3 on all, 4 on a 10-instance alphabet (thorough) and random walks to depth 50, every setter on every parameter form of its instruction (L.S./CGLS n nrf nextra, PLAN n d1 d2, WGHT a..f, ACTA; zero, negative and default-equal values per slot), file written '
                 'and lexed after every edit; distinct by (file text, history); non-trivial = the scheme with absolute delete_on_write '
                 'indices would write something else than the specification somewhere in the history (insertion/deletion in front '
                 'of an absorbed SFAC/FVAR line), or the history addresses a line of which a textually identical copy stands earlier in the file')
@@ -752,6 +870,7 @@ def run(ctx):
             cases.append(dict(f, hist=[dict(op='add_line_at', i=k)]))
             for o in alphabet(f, small=True) if (i == 0 or thorough) else []:
                 cases.append(dict(f, hist=[dict(op='add_line_at', i=k), dict(o)]))
+    cases += setter_grid(rng, thorough)
     ctx.extra['exhaustive_histories'] = len(cases)
     # 2. random walks on random rich files
     for _ in range(ctx.budget(120, 1500)):
